@@ -9,6 +9,9 @@ CONSTANTS TcpT = 2
           InitRules <- NoSets
           RuleSets <- NoSets
           Reloads = FALSE
+          Cfgs <- NoCfgs
+          InitCfg = 0
+          EffOf <- EffNone
           VerMod = 4
           Gaps <- NoSets
           MaxItems = 0
